@@ -536,7 +536,9 @@ PROPS["C10"] = dict(
                "(right and wrong password) and decode-and-recompute; libsodium / harness-built string (both algorithms, salt 8..64 bytes, hash 16..128 bytes) -> dryoc verify, parse, re-encode (must be identical) "
                "and needs_rehash (false exactly when both costs match, for five cost variations per string). A parse-only family (no hashing) covers m and t over the whole u32 range, both algorithms: parse -> re-encode must be the identity and needs_rehash must follow the rule (cross-checked with libsodium's needs_rehash). Sampled inputs, hence exploration.",
     level_note="libsodium's decoder sizes its buffers from strlen, so its verdict is available for non-default salt/hash lengths too; the needs-rehash rule is cross-checked against libsodium on standard strings.",
-    runs=lambda tier: [dict(build="st", monitor="c10")] + _rel("c10")(tier) + _simd("c10")(tier),
+    # the SIMD run uses the quick corpus in both tiers: the object API's hash lengths 16..=128 (where the variable-length
+    # hash of the second BLAKE2b implementation has its own block handling) are one case in six, too few in the tiny corpus
+    runs=lambda tier: [dict(build="st", monitor="c10")] + _rel("c10")(tier) + [dict(build="ni-simd", monitor="c10", tier="quick")],
     floors=_c10_floors,
     rule="a case is one password-hash string with its password and origin; distinct by generated index; every case performs hashing",
     assumptions=["costs are kept small (the property quantifies over the accepted range at small cost)"],
